@@ -15,7 +15,7 @@ import apicheck as A
 import procstate as PS
 import cases as C
 import docx as D
-from common import run_driver, VERIF, REPO
+from common import run_driver, VERIF, REPO, WORK, deepen
 
 PROFILE = dict(style_map=0.5, p_dangling_style=0.3, p_pstyle=0.6, p_rstyle=0.4, p_unknown=0.15, p_image=0.25, p_note=0.15, separators=True, p_embedded_map=0.35, max_blocks=5,
                p_hyperlink=0.2, p_bookmark=0.15, p_comment=0.1, p_numbering=0.3)
@@ -355,6 +355,111 @@ WRAPS = {
 }
 
 
+# ---------------------------------------------------------------------------------------------------------------------
+# One file object, several calls: "converting the same bytes with the same options always returns the same value"
+# also when the caller hands the SAME handle to the library again (or has read from it before), whatever position the
+# previous call left it at.  Packages are laid out in several ways (main document first / last, stored / deflated,
+# streamed with data descriptors) because where a call leaves the position depends on the layout.
+# ---------------------------------------------------------------------------------------------------------------------
+
+class _NoSeek:
+    """write-only, unseekable sink: zipfile then writes data descriptors after each member (a streaming producer)"""
+
+    def __init__(self):
+        self.buf = io.BytesIO()
+
+    def write(self, b):
+        return self.buf.write(b)
+
+    def flush(self):
+        pass
+
+
+def layouts(rng, p):
+    import zipfile
+    n = len(p["parts"])
+    idx = [i for i, q in enumerate(p["parts"]) if q["name"] == "word/document.xml"]
+    order_last = [i for i in range(n) if i not in idx] + idx
+    order_first = idx + [i for i in range(n) if i not in idx]
+    yield "as generated", p["data"]
+    yield "main document last, deflated", D.build_docx(p["parts"], order=order_last, compression="deflate")
+    yield "main document first, mixed", D.build_docx(p["parts"], order=order_first, compression="mixed")
+    sink = _NoSeek()
+    with zipfile.ZipFile(sink, "w", zipfile.ZIP_DEFLATED) as z:
+        plain = zipfile.ZipFile(io.BytesIO(p["data"]))
+        for name in (plain.namelist() if rng.random() < 0.5 else plain.namelist()[::-1]):
+            z.writestr(name, plain.read(name))
+    yield "streamed (data descriptors)", sink.buf.getvalue()
+
+
+def run_same_handle(out, rng, pool, tier):
+    import mammoth
+    import zipfile
+    n = 0
+    docs = rng.sample(pool, min(len(pool), deepen(14 if tier == "quick" else 120)))
+    tmpdir = os.path.join(WORK, "c15-handles-%d" % os.getpid())
+    os.makedirs(tmpdir, exist_ok=True)
+
+    def call(kind, f, opts):
+        try:
+            with D.time_limit():
+                try:
+                    if kind == "html":
+                        r = mammoth.convert_to_html(f, **D.real_options(opts, []))
+                    elif kind == "markdown":
+                        r = mammoth.convert_to_markdown(f, **D.real_options(opts, []))
+                    elif kind == "raw":
+                        r = mammoth.extract_raw_text(f)
+                    else:
+                        return {"value": mammoth.read_embedded_style_map(f), "messages": None, "err": None}
+                    return {"value": r.value, "messages": A.norm_messages([m.message for m in r.messages]), "err": None}
+                except Exception as e:  # noqa
+                    return {"value": None, "messages": None, "err": D.err_kind(e)}
+        except D.DidNotTerminate:
+            return {"value": None, "messages": None, "err": "DidNotTerminate"}
+
+    try:
+        for di, p in enumerate(docs):
+            for lname, data in layouts(rng, p):
+                alone = {k: call(k, io.BytesIO(data), p["options"]) for k in ("html", "markdown", "raw", "map")}
+                if rng.random() < 0.3:
+                    path = os.path.join(tmpdir, "d%d.docx" % di)
+                    with open(path, "wb") as fh:
+                        fh.write(data)
+                    f, hname = open(path, "rb"), "a file opened for reading"
+                else:
+                    f, hname = io.BytesIO(data), "a BytesIO"
+                steps = []
+                try:
+                    for _ in range(rng.randint(2, 5)):
+                        pre = rng.choice(["", "", "", "read", "seek", "is_zipfile", "end"])
+                        if pre == "read":
+                            f.read(rng.choice([1, 4, 30, 1000]))
+                        elif pre == "seek":
+                            f.seek(rng.randrange(len(data) + 1))
+                        elif pre == "is_zipfile":
+                            zipfile.is_zipfile(f)
+                        elif pre == "end":
+                            f.seek(0, 2)
+                        kind = rng.choice(["html", "html", "html", "raw", "map", "markdown"])
+                        r = call(kind, f, p["options"])
+                        steps.append((pre, kind))
+                        n += 1
+                        out.count(key="handle-%d-%s-%d" % (di, lname, len(steps)), nontrivial=len(steps) > 1)
+                        if not same(r, alone[kind]):
+                            out.violation("the same file object given to the library again (layout: %s; handle: %s; calls so far: %s) gives another result than the same bytes in a new file object"
+                                          % (lname, hname, ", ".join((a + "+" if a else "") + b for a, b in steps)),
+                                          {"kind": "same-handle", "data_hex": data.hex() if len(data) < 60000 else None, "parts": p["parts"], "options": p["options"],
+                                           "layout": lname, "steps": steps}, expected=alone[kind], actual=r)
+                            return n
+                finally:
+                    f.close()
+    finally:
+        import shutil
+        shutil.rmtree(tmpdir, ignore_errors=True)
+    return n
+
+
 def D_el(name, children):
     return [name, [], list(children)]
 
@@ -608,9 +713,13 @@ def run(out, tier, seed, model_ok):
         # module-level containers of the library changed while converting (a cache, a registry): the place where one call
         # can reach into another one - more families, with other bases
         out.extra["module_level_state_changed"] = leads[:10]
-        n2, c2 = run_families(out, random.Random(seed * 7919 + 1516), seed + 7777, tier, model_ok, 2 * nfam, earlier=pool)
+        n2, c2 = run_families(out, random.Random(seed * 7919 + 1516), seed + 7777, tier, model_ok, 5 * nfam, earlier=pool)
         nmem, ncall = nmem + n2, ncall + c2
     t_f = time.time() - t_f
+    # 2b'. one file object handed to the library several times, packages laid out in several ways
+    if not out.violations:
+        out.extra["same_handle_calls"] = run_same_handle(out, random.Random(seed * 7919 + 1517), pool, tier)
+        st = state_check(findings, leads, st, "repeated calls on one file object")
     # 2c. documents nested deep enough for the outcome to depend on the interpreter's recursion limit: alone, and concurrently
     t_d = time.time()
     deep = deep_documents(rng2, pool, out, limit0)
@@ -707,6 +816,40 @@ def replay(out, payload, model_ok):
                            capture_output=True, text=True).stdout)
         if fresh != last:
             out.violation("the last call of the history differs from the same call in a fresh process", case, expected=fresh, actual=last)
+    elif case.get("kind") == "same-handle" and case.get("data_hex"):
+        import mammoth
+        import zipfile
+        data = bytes.fromhex(case["data_hex"])
+
+        def call(kind, f):
+            try:
+                if kind == "html":
+                    r = mammoth.convert_to_html(f, **D.real_options(case["options"], []))
+                elif kind == "markdown":
+                    r = mammoth.convert_to_markdown(f, **D.real_options(case["options"], []))
+                elif kind == "raw":
+                    r = mammoth.extract_raw_text(f)
+                else:
+                    return {"value": mammoth.read_embedded_style_map(f), "messages": None, "err": None}
+                return {"value": r.value, "messages": A.norm_messages([m.message for m in r.messages]), "err": None}
+            except Exception as e:  # noqa
+                return {"value": None, "messages": None, "err": D.err_kind(e)}
+        f = io.BytesIO(data)
+        rng = random.Random(0)
+        for pre, kind in case["steps"]:
+            if pre == "read":
+                f.read(30)
+            elif pre == "seek":
+                f.seek(rng.randrange(len(data) + 1))
+            elif pre == "is_zipfile":
+                zipfile.is_zipfile(f)
+            elif pre == "end":
+                f.seek(0, 2)
+            r = call(kind, f)
+            alone = call(kind, io.BytesIO(data))
+            if not same(r, alone):
+                out.violation("the same file object given to the library again gives another result than the same bytes in a new file object", case, expected=alone, actual=r)
+                return
     elif case.get("kind") in ("threads", "deep-history", "global-state-during") and case.get("parts"):
         data = D.build_docx(case["parts"])
         alone = fresh_calls([{"steps": [["0", case["options"]]]}], {"0": data})[0]
